@@ -1052,6 +1052,7 @@ func runLifeCase(c cfg, seed uint64, o lifeOpts, keys map[string]struct{}) (eval
 		sig := fmt.Sprintf("C07 %s op=%s site=%s", a.Kind, a.Op, a.Site)
 		res.Violate(sig, fmt.Sprintf("config %s: %s on fd %d at %s: %s", c, a.Kind, a.FD, a.Site, a.Detail), map[string]any{"config": c.String(), "events": mon.tail(30), "shim_log": vsys.LogTail(60)})
 	}
+	var reclaim []int
 	for _, fi := range vsys.Owned() {
 		if fi.Class == "adopted" {
 			continue
@@ -1061,8 +1062,14 @@ func runLifeCase(c cfg, seed uint64, o lifeOpts, keys map[string]struct{}) (eval
 		}
 		sig := fmt.Sprintf("C07 leak class=%s site=%s registered=%v", fi.Class, fi.Site, fi.Registered)
 		res.Violate(sig, fmt.Sprintf("config %s: descriptor %d (%s, created in %s, ever registered in epoll: %v) is still open after Run returned: %s", c, fi.FD, fi.Class, fi.Site, fi.Registered, fdIdent(fi.FD)), map[string]any{"config": c.String(), "source": o.shutdownFrom, "moment": o.moment})
+		reclaim = append(reclaim, fi.FD)
 	}
 	after := fdTable()
+	defer func() {
+		for _, fd := range reclaim { // reported above; reclaimed so that long runs do not exhaust the descriptor table
+			_ = unix.Close(fd)
+		}
+	}()
 	for fd, id := range after {
 		if b, ok := before[fd]; ok && b == id {
 			continue
